@@ -112,8 +112,14 @@ func (x *c20) shape(where string, o map[string]any, required []string, optional 
 	}
 	ok := true
 	for _, k := range required {
-		if _, has := o[k]; !has {
+		v, has := o[k]
+		if !has {
 			x.viol("shape/"+where+"/missing:"+k, "%s: field %q missing (has %v)", where, k, keysOf(o))
+			ok = false
+		} else if v == nil && k != "payment_preimage" && k != "pubkey" && k != "change" {
+			// the NUTs define these members as arrays / objects / strings / numbers: null is none of them (a typed client
+			// decoding into a list fails on it)
+			x.viol("shape/"+where+"/null:"+k, "%s: field %q is null", where, k)
 			ok = false
 		}
 	}
@@ -383,14 +389,21 @@ func nearReplays(path, body string) [][3]string {
 }
 
 func (x *c20) nut19(where, path, body string, first resp, errCode int) {
-	// byte-identical replay: identical answer, nothing executed
-	r := x.call("POST", path, body)
-	if r.code != 200 || r.raw != first.raw {
-		x.viol("nut19/"+where+"/replay-differs", "replaying the byte-identical %s request returned status %d and a %s body", where, r.code, map[bool]string{true: "identical", false: "different"}[r.raw == first.raw])
+	// byte-identical replay, several times within the advertised ttl (seconds after the first answer, ttl 300 s):
+	// identical answer, nothing executed — every time, not only the first
+	replay := func(nth string) {
+		r := x.call("POST", path, body)
+		if r.code != 200 || r.raw != first.raw {
+			x.viol("nut19/"+where+"/replay-differs", "%s replay of the byte-identical %s request returned status %d and a %s body: %.120q", nth, where, r.code, map[bool]string{true: "identical", false: "different"}[r.raw == first.raw], r.raw)
+		}
+		if r.db != 0 {
+			x.viol("nut19/"+where+"/replay-executed", "%s replay of the byte-identical %s request made %d MintDB calls (executed again)", nth, where, r.db)
+		}
 	}
-	if r.db != 0 {
-		x.viol("nut19/"+where+"/replay-executed", "replaying the byte-identical %s request made %d MintDB calls (executed again)", where, r.db)
-	}
+	replay("first")
+	replay("second")
+	replay("third")
+	defer replay("a later (after the near replays)")
 	for _, nr := range nearReplays(path, body) {
 		r := x.call("POST", nr[1], nr[2])
 		if r.code == 200 && r.raw == first.raw {
@@ -687,6 +700,20 @@ func c20Probe(limits bool) func(w *mintops.W) {
 				}
 			}
 		}
+		// restore batches in which nothing (or no output at all) is found: still the two arrays
+		for name, body := range map[string]string{"none-signed": fmt.Sprintf(`{"outputs":%s}`, outsJSON(u.Outputs(x.act, 1, 2))), "empty": `{"outputs":[]}`} {
+			r = x.call("POST", "/v1/restore", body)
+			if r.code != 200 {
+				continue // refusing an empty batch is a legitimate answer
+			}
+			if x.shape("restore("+name+")", r.obj, []string{"outputs", "signatures"}) {
+				for _, k := range []string{"outputs", "signatures"} {
+					if l, isArr := r.obj[k].([]any); !isArr || len(l) != 0 {
+						x.viol("shape/restore("+name+")/"+k, "restore of a batch with nothing to restore: %q is %v, expected an empty array", k, r.obj[k])
+					}
+				}
+			}
+		}
 		// ---- armed storage / Lightning failures ----
 		if !limits {
 			x.armed()
@@ -858,7 +885,7 @@ var c20All = specMap(c20Specs(true), c20Specs(false))
 func init() {
 	register(&Prop{ID: "C20", Level: "model_checking", QuickBudget: 100 * time.Second, ThoroughBudget: 25 * time.Minute,
 		Run: func(c *rt.Ctx) {
-			c.Cov["rule"] = "E3 builds the states (every history up to the depth bound over {mint quote, swap, melt quote, melt pending / succeeded, start-up and run-time rotation, restart}, plus a limits configuration); in every distinct state a scripted client speaks to the real handler with hand-assembled JSON decoded into generic maps: every endpoint's honest request must be answered 200 with exactly the NUT field set (string state enums, 66-hex points, decimal-string key maps in ascending order, dleq {e,s} without r); one single-cause request per row of the NUT error table must be answered 400 with exactly {detail, code} and that code; each successful swap and mint is replayed byte-identically (identical body, zero MintDB calls) and through every near-replay class (whitespace, one hex digit, key order, extra field, query string, other path, GET) which must never be served from the cache; a storage error is injected at every MintDB call index of every request type (single and persistent) and Lightning failures at CreateInvoice / InvoiceStatus: the answer must be a well-formed 400 without internal detail or internal codes"
+			c.Cov["rule"] = "E3 builds the states (every history up to the depth bound over {mint quote, swap, melt quote, melt pending / succeeded, start-up and run-time rotation, restart}, plus a limits configuration); in every distinct state a scripted client speaks to the real handler with hand-assembled JSON decoded into generic maps: every endpoint's honest request must be answered 200 with exactly the NUT field set (string state enums, 66-hex points, decimal-string key maps in ascending order, dleq {e,s} without r); one single-cause request per row of the NUT error table must be answered 400 with exactly {detail, code} and that code; each successful swap and mint is replayed byte-identically three times in a row and once more after the near replays (identical body, zero MintDB calls each time) and through every near-replay class (whitespace, one hex digit, key order, extra field, query string, other path, GET) which must never be served from the cache; a storage error is injected at every MintDB call index of every request type (single and persistent) and Lightning failures at CreateInvoice / InvoiceStatus: the answer must be a well-formed 400 without internal detail or internal codes"
 			runSpecs(c, c20Specs(c.Quick()))
 		},
 		Worker: bfs.Worker(c20All),
